@@ -32,7 +32,7 @@ PROPS = {
         assumptions=["immutables.Map behaves as a finite map; iteration order is not observed",
                      "histories: parents before children, distinct ids (WFArrivals)"]),
     "C04": dict(
-        lean_core=["Props.C04"], lean_code=[], gen_funcs=[], harness="c04",
+        lean_core=["Props.C04"], lean_code=["Props.GenTie.Head"], gen_funcs=["get_total_work", "head_switches"], harness="c04",
         assumptions=["histories: parents before children, distinct ids, height = parent's + 1 (WFArrivals)"]),
     "C17": dict(
         lean_core=["Props.C17"], lean_code=[], gen_funcs=[], harness="c17",
